@@ -44,3 +44,115 @@ pub fn builder_switches_move_together_release() {
     kani::cover!(!skip, "skip not requested");
     builder_switches(skip)
 }
+
+// ------------------------------------------------------------------ validation kernel (EntryWriter up to finish())
+use crate::c02::emf_harness;
+use metrique_writer_core::{Entry, EntryWriter, MetricFlags, Observation, Unit, Value, ValueWriter};
+use std::time::{Duration, SystemTime};
+
+const NAMES: [&str; 4] = ["A", "B", "_aws", ""];
+
+#[derive(Clone, Copy)]
+struct Item {
+    metric: bool,
+    name: u8,
+    v: u64,
+}
+struct V(Item);
+impl Value for V {
+    fn write(&self, w: impl ValueWriter) {
+        if self.0.metric {
+            w.metric([Observation::Unsigned(self.0.v)], Unit::None, [], MetricFlags::empty())
+        } else {
+            w.string("s")
+        }
+    }
+}
+struct Scripted {
+    items: [Item; 2],
+    n: usize,
+    timestamps: u8,
+}
+impl Entry for Scripted {
+    fn write<'a>(&'a self, w: &mut impl EntryWriter<'a>) {
+        let mut t = 0;
+        while t < self.timestamps {
+            w.timestamp(SystemTime::UNIX_EPOCH + Duration::from_millis(7));
+            t += 1;
+        }
+        let mut i = 0;
+        while i < self.n {
+            w.value(NAMES[self.items[i].name as usize], &V(self.items[i]));
+            i += 1;
+        }
+    }
+}
+fn any_item() -> Item {
+    let it = Item { metric: kani::any(), name: kani::any(), v: kani::any() };
+    kani::assume(it.name < 4);
+    it
+}
+
+/// reference: is this entry malformed in one of the ways the formatter must reject (as far as the
+/// EntryWriter sees it before finish())?
+fn malformed(e: &Scripted, dimension_a: bool) -> bool {
+    let mut bad = e.timestamps > 1;
+    let mut i = 0;
+    while i < e.n {
+        let it = e.items[i];
+        if it.name >= 2 {
+            bad = true; // reserved `_aws` or empty name
+        }
+        if dimension_a && it.name == 0 && it.metric {
+            bad = true; // a metric written under a dimension name
+        }
+        i += 1;
+    }
+    if e.n == 2 && e.items[0].name == e.items[1].name && e.items[0].name < 2 {
+        bad = true; // two values under one name
+    }
+    bad
+}
+
+fn validation_kernel(dimension_a: bool) {
+    let e = Scripted { items: [any_item(), any_item()], n: kani::any(), timestamps: kani::any() };
+    kani::assume(e.n <= 2 && e.timestamps <= 2);
+    let validate: bool = kani::any();
+    let mut emf = hooks::emf_small(validate, dimension_a);
+    let rejected = hooks::write_entry_without_finish(&mut emf, &e, None);
+    let bad = malformed(&e, dimension_a);
+    kani::cover!(validate && bad && e.n == 2 && e.items[0].name == e.items[1].name, "duplicate name under validation");
+    kani::cover!(validate && !bad && e.n == 2, "valid two-value entry under validation");
+    if validate {
+        assert!(rejected == bad, "with validations on: rejected exactly when malformed");
+    } else {
+        // without validations only the always-on checks remain (more than one timestamp)
+        assert!(rejected == (e.timestamps > 1), "validations off: nothing but the timestamp rule is enforced");
+    }
+    core::mem::forget(emf);
+}
+
+emf_harness! {
+// @check C08 quick timeout=1800 mem=20
+// @encodes Emf::format_with_multiplicity up to finish() (verif_hooks::write_entry_without_finish builds the same EntryWriter), EntryWriter::{timestamp, value, validate_name}, ValueWriter::{string, metric, validate_string}, write_metric, ValidationErrorBuilder
+// @bounds formatter for namespace "N" with dimension sets [[]]; validations on or off (symbolic); entry = 0..=2 timestamps and 0..=2 values, each a string or an Unsigned(any) metric named "A", "B", "_aws" or ""
+// @oracle validations on: a validation error is recorded exactly when the entry writes two values under one name, an empty or reserved name, or more than one timestamp; validations off: only the multiple-timestamp rule
+// @stubs hashbrown -> in-repo Vec-backed model (kani_hashbrown.rs); tracing x4, Instant::now, alloc::fmt::format, String::push/push_str/shrink_to, Vec::extend_from_slice, itoa/dtoa recording stubs; Emf built by verif_hooks::emf_small (the constants build() computes for this configuration)
+// @outside finish(): the missing-dimension sweep, 'writes nothing on error', byte-identical output with validations off; entry-dimension configuration; split-mode checks
+#[kani::unwind(4)]
+pub fn rejects_exactly_malformed_no_dimensions() {
+    validation_kernel(false)
+}
+}
+
+emf_harness! {
+// @check C08 quick timeout=1800 mem=20
+// @encodes same as rejects_exactly_malformed_no_dimensions, with a pre-populated validation map (UnfoundDimension)
+// @bounds formatter with dimension sets [["A"]]; same entries
+// @oracle additionally: a metric written under the dimension name "A" is rejected, a string named "A" (the dimension's value) is accepted, a second value named "A" is a duplicate
+// @stubs same as rejects_exactly_malformed_no_dimensions
+#[kani::unwind(4)]
+pub fn rejects_exactly_malformed_with_dimension() {
+    validation_kernel(true)
+}
+}
